@@ -33,10 +33,10 @@ func VerifNew(pieces *piece.Pieces, info []byte, myBitmap bitmap.Bitmap,
 }
 
 func VerifHandleMessage(p *Peer, m protocol.Message) error { return handleMessage(p, m) }
-func VerifHandleEvent(p *Peer, e PeerEvent) error         { return handleEvent(p, e) }
-func VerifMaybeRequest(p *Peer)                           { maybeRequest(p) }
-func VerifUploadTick(p *Peer) error                       { return scheduleUpload(p, true) }
-func VerifSendPex(p *Peer)                                { sendPex(p) }
+func VerifHandleEvent(p *Peer, e PeerEvent) error          { return handleEvent(p, e) }
+func VerifMaybeRequest(p *Peer)                            { maybeRequest(p) }
+func VerifUploadTick(p *Peer) error                        { return scheduleUpload(p, true) }
+func VerifSendPex(p *Peer)                                 { sendPex(p) }
 
 // VerifTick is the request part of the 2 s ticker of Run.
 func VerifTick(p *Peer) {
